@@ -983,6 +983,21 @@ func accessibleFrom(info *types.Info, node ast.Node, wantPkg string) error {
 		if unexportError != nil {
 			return false
 		}
+		if lit, ok := node.(*ast.CompositeLit); ok && len(lit.Elts) > 0 {
+			// An unkeyed struct literal sets every field without naming it.
+			if _, keyed := lit.Elts[0].(*ast.KeyValueExpr); !keyed {
+				if t := info.TypeOf(lit); t != nil {
+					if st, ok := t.Underlying().(*types.Struct); ok {
+						for i := 0; i < st.NumFields(); i++ {
+							if f := st.Field(i); !f.Exported() && f.Pkg() != nil && f.Pkg().Path() != wantPkg {
+								unexportError = fmt.Errorf("uses unexported field %s in an unkeyed literal", f.Name())
+								return false
+							}
+						}
+					}
+				}
+			}
+		}
 		ident, ok := node.(*ast.Ident)
 		if !ok {
 			return true
